@@ -1495,6 +1495,12 @@ class Sym:
     def ev_initlist(self, e, st):
         t = e.get('t', '')
         r = self.F.rec.get(t.replace('const ', '')) if t else None
+        if r is None and t and '::' not in t:
+            # a class local to a function is named without its scope in the type of the expression
+            for env in reversed(st.envs):
+                if env.get('__fn__') and f"{env['__fn__']}::{t.replace('const ', '').strip()}" in self.F.rec:
+                    r = self.F.rec[f"{env['__fn__']}::{t.replace('const ', '').strip()}"]
+                    break
         out = []
         for s, vals in self.ev_list(e.get('elts', []), st):
             if s.throw is not None:
@@ -1755,6 +1761,14 @@ class Sym:
                     and contracts_free_effect(target):
                 st.effects.append(('fcall', target, None, tuple(args)))
             t = ('call', target, recv, tuple(args))
+            if f is not None and not f.get('ctor'):
+                # a function not entered (a loop inside) whose every return hands back one of its reference parameters -- the stream
+                # idiom `return printer;` / `return printer << x;` -- yields that argument, not a new unknown object
+                which = self.returns_its_argument(f)
+                if which == 'this' and recv is not None:
+                    t = recv
+                elif isinstance(which, int) and which < len(args):
+                    t = args[which]
             if recv is not None and eff_const:
                 # an observation of a container made after it was grown in this evaluation is a different value
                 n = sum(1 for e in st.effects if (e[0] == 'emplace' and e[2] == recv)
@@ -1776,6 +1790,45 @@ class Sym:
             n = sum(1 for e in st.effects if (e[0] == 'emplace' and e[2] == recv) or (e[0] == 'call' and e[2] == recv and _is_mutator(e[1])))
             return [(st, ('after', n, t) if n else t)]
         return self.call_body(f, recv, args, st, captures=caps)
+
+    def returns_its_argument(self, f, depth=0):
+        """index of the reference parameter (or 'this') that every return statement of f hands back, directly or through a call
+        that itself hands back that argument; None when there is no such parameter"""
+        key = ('ret-arg', f['id'])
+        if key in self._loop_cache:
+            return self._loop_cache[key]
+        self._loop_cache[key] = None
+        res = set()
+        if '&' not in (f.get('ret') or ''):
+            return None
+
+        def origin(e, d):
+            while isinstance(e, dict) and e.get('k') in ('cast', 'paren') and 'e' in e:
+                e = e['e']
+            if not isinstance(e, dict):
+                return None
+            if e.get('k') == 'ref' and e.get('kind') == 'parm':
+                return e.get('idx')
+            if e.get('k') == 'unop' and e.get('op') == '*' and (e.get('e') or {}).get('k') == 'this':
+                return 'this'
+            if e.get('k') == 'call' and e.get('callee') and d < 4:
+                g = self.F.fn.get(e['callee'].get('id'))
+                if g is None or g.get('body') is None:
+                    return None
+                w = self.returns_its_argument(g, d + 1)
+                if w == 'this':
+                    return origin(e.get('obj'), d + 1) if e.get('obj') is not None else None
+                if isinstance(w, int) and w < len(e.get('args', [])):
+                    return origin(e['args'][w], d + 1)
+            return None
+        rets = [n for n in _walk(f.get('body')) if n.get('k') == 'return']
+        if not rets or any(n.get('k') == 'lambda' for n in _walk(f.get('body'))):
+            return None
+        for n in rets:
+            res.add(origin(n.get('e'), depth))
+        out = res.pop() if len(res) == 1 else None
+        self._loop_cache[key] = out
+        return out
 
     def loops_on_data(self, f):
         """Does the body contain a while/for/do loop (range-for searches and the rest are handled by the evaluator)?"""
